@@ -170,6 +170,8 @@ func checkC05(c *km.Ctx) {
 	}
 
 	checkOneTime(c, s, upd, isAuthUser)
+	checkPushRecords(c)
+	checkChallengeAtomic(c, km.NewLockSets(), "R-C05-4")
 }
 
 func bitList(bits int64) []int64 {
@@ -769,5 +771,79 @@ func checkOneTime(c *km.Ctx, s *km.Sem, upd *ssa.Function, isAuthUser func(ssa.V
 			unexp := st.All(func(k km.Conj) bool { return s.Holds(k, notExpired) })
 			r.Add("R-C05-4", km.FuncName(fn), "challenge consumed before upgrade", posOf(c, ci), "challenge of authUser looked up, deleted (consumed) and unexpired before the level is raised", sprintf("key=authUser:%v delete-dominates=%v unexpired=%v", keyOK, dom, unexp), keyOK && dom && unexp)
 		}
+	}
+}
+
+// checkPushRecords: every record stored into the pending-push table pairs a transaction id with the very user
+// the push was started for: the record is built in the storing function (not taken over from the table), its
+// TransactionID is the result of StartUserVIPPush(U) and its Username is that same U. The poll handler compares
+// record.Username with the polling session's user; that comparison means something only if the pair is coherent.
+func checkPushRecords(c *km.Ctx) {
+	r := c.R
+	n := 0
+	for _, fn := range c.P.AllFuncs {
+		if fn.Pkg == nil || fn.Pkg.Pkg.Path() != KMD {
+			continue
+		}
+		km.Instrs(fn, func(in ssa.Instruction) {
+			mu, ok := in.(*ssa.MapUpdate)
+			if !ok || !mentionsField(mu.Map, "vipPushCookie") {
+				return
+			}
+			n++
+			var problems []string
+			var cell *ssa.Alloc
+			if u, ok := km.Unwrap(mu.Value).(*ssa.UnOp); ok {
+				cell, _ = u.X.(*ssa.Alloc)
+			}
+			if cell == nil {
+				problems = append(problems, "stored record is not a value built in this function: "+km.ValStr(mu.Value))
+			} else {
+				var users, txs []ssa.Value
+				for _, ref := range *cell.Referrers() {
+					switch x := ref.(type) {
+					case *ssa.Store:
+						if x.Addr == ssa.Value(cell) {
+							if _, zero := km.Unwrap(x.Val).(*ssa.Const); !zero {
+								problems = appendUniq(problems, "the record is taken over whole from "+km.ValStr(x.Val))
+							}
+						}
+					case *ssa.FieldAddr:
+						for _, r2 := range *x.Referrers() {
+							if st, ok := r2.(*ssa.Store); ok && st.Addr == ssa.Value(x) {
+								switch fieldNameOf(x) {
+								case "Username":
+									users = append(users, km.Unwrap(st.Val))
+								case "TransactionID":
+									txs = append(txs, km.Unwrap(st.Val))
+								}
+							}
+						}
+					}
+				}
+				if len(users) == 0 || len(txs) == 0 {
+					problems = appendUniq(problems, "Username / TransactionID are not both set here")
+				}
+				for _, tx := range txs {
+					cl, idx := callRes(tx)
+					if cl == nil || idx != 0 || !strings.HasSuffix(km.CalleeFull(cl.Common()), ".StartUserVIPPush") {
+						problems = appendUniq(problems, "transaction id is not the result of StartUserVIPPush: "+km.ValStr(tx))
+						continue
+					}
+					a := km.CallArgs(cl.Common())
+					started := km.Unwrap(a[len(a)-1])
+					for _, u := range users {
+						if u != started {
+							problems = appendUniq(problems, "record names "+km.ValStr(u)+" but the push was started for "+km.ValStr(started))
+						}
+					}
+				}
+			}
+			sort.Strings(problems)
+			r.Add("R-C05-2", km.FuncName(fn), "pending push record binds transaction and user", posOf(c, in), "a record built here with TransactionID = StartUserVIPPush(U) and Username = U", sprintf("%v", problems), len(problems) == 0)
+		})
+	}
+	if n == 0 {
+		r.AnchorLost("R-C05-2", "stores into the pending VIP push table")
 	}
 }
